@@ -136,12 +136,14 @@ template <class Filter, class OutputBuffer, class RealOutput> class Controller :
     void FlushInput() {
       if (input_->Empty()) return;
       filter_.Produce(local_read_.top());
+      // The sequence number is consumed only when the batch is actually sent.
+      ++sequence_;
       local_read_.pop();
       if (local_read_.empty()) MoveRead();
     }
 
     void NewInput() {
-      input_ = &local_read_.top()->Fill(sequence_++);
+      input_ = &local_read_.top()->Fill(sequence_);
     }
 
     void MoveRead() {
